@@ -105,6 +105,9 @@ macro_rules! apply_kind {
             assert!(got.half == want.half, "VERIF half-move clock after {:?} on [{}]: got {} want {}", mv, b, got.half, want.half);
             assert!(got.full == want.full, "VERIF full-move number after {:?}: got {} want {}", mv, got.full, want.full);
             assert!(same_view(&view(&b), &view(&before)) && b.zobrist == before.zobrist, "VERIF make-move modified self");
+            // vacuity guards AFTER the call: the end of the harness is reachable with and without a capture
+            kani::cover!(g::has(r::occ(&p), m.dst) || $kind == 4 || $kind == 2, "reach: end of harness with a capture (or a kind that has none)");
+            kani::cover!(!g::has(r::occ(&p), m.dst), "reach: end of harness without a capture on the destination");
         }
 
         #[kani::proof]
@@ -121,6 +124,8 @@ macro_rules! apply_kind {
             let mut out = any_board();
             unsafe { b.move_unchecked_into(mv, &mut out) };
             assert!(out.zobrist == b.zobrist ^ hash_delta(&p, m), "VERIF incremental hash after {:?} on [{}]", mv, b);
+            kani::cover!(g::has(r::occ(&p), m.dst) || $kind == 4 || $kind == 2, "reach: end of harness with a capture (or a kind that has none)");
+            kani::cover!(!g::has(r::occ(&p), m.dst), "reach: end of harness without a capture on the destination");
         }
 
         /// foreach-loop proof of the slider re-scan (as for update_pin_info): with the one-shot iterator the loop
@@ -159,6 +164,9 @@ macro_rules! apply_kind {
             }
             assert!(out.checkers.to_u64() == want_c, "VERIF stale checkers after {:?} on [{}]: {:#x} want {:#x}", mv, b, out.checkers.to_u64(), want_c);
             assert!(out.pinned.to_u64() == want_p, "VERIF stale pinned after {:?} on [{}]: {:#x} want {:#x}", mv, b, out.pinned.to_u64(), want_p);
+            kani::cover!(g::has(r::occ(&p), m.dst) || $kind == 4 || $kind == 2, "reach: end of harness with a capture (or a kind that has none)");
+            kani::cover!(npops() == 1 && want_c != 0, "reach: a slider gives check after the move");
+            kani::cover!(npops() == 1 && want_p != 0, "reach: a slider pins a piece after the move");
         }
     };
 }
@@ -258,6 +266,8 @@ fn c02_move_new() {
         Some(n) => assert!(legal && same_view(&view(&n), &want), "VERIF move_new accepted {:?}", mv),
         None => assert!(!legal, "VERIF move_new refused the legal move {:?}", mv),
     }
+    kani::cover!(legal, "reach: a legal move offered");
+    kani::cover!(!legal, "reach: an illegal move offered");
 }
 #[kani::proof]
 #[kani::unwind(9)]
@@ -273,6 +283,8 @@ fn c02_move_mut() {
     } else {
         assert!(same_view(&view(&c), &p) && c.zobrist == b.zobrist && c.pinned == b.pinned && c.checkers == b.checkers, "VERIF move_mut refused but changed the board");
     }
+    kani::cover!(ok, "reach: accepted");
+    kani::cover!(!ok, "reach: refused");
 }
 #[kani::proof]
 #[kani::unwind(9)]
@@ -289,6 +301,8 @@ fn c02_move_into() {
     } else {
         assert!(same_view(&view(&o), &view(&o0)) && o.zobrist == o0.zobrist && o.pinned == o0.pinned && o.checkers == o0.checkers, "VERIF move_into refused but wrote the output");
     }
+    kani::cover!(ok, "reach: accepted");
+    kani::cover!(!ok, "reach: refused");
 }
 
 #[kani::proof]
